@@ -102,10 +102,12 @@ template <>
 int
 Acl::SplayInserter<acl_ip_data*>::Compare(const Value &a, const Value &b)
 {
-    if (a->lastAddress() < b->firstAddress())
+    // Ip::Address::operator<() and friends special-case isAnyAddr()/isNoAddr()
+    // and do not define an order; matchIPAddr() does.
+    if (a->lastAddress().matchIPAddr(b->firstAddress()) < 0)
         return -1; // the entire range a is to the left of range b
 
-    if (a->firstAddress() > b->lastAddress())
+    if (a->firstAddress().matchIPAddr(b->lastAddress()) > 0)
         return +1; // the entire range a is to the right of range b
 
     return 0; // equal or partially overlapping ranges
@@ -115,15 +117,17 @@ template <>
 bool
 Acl::SplayInserter<acl_ip_data*>::IsSubset(const Value &a, const Value &b)
 {
-    return b->firstAddress() <= a->firstAddress() && a->lastAddress() <= b->lastAddress();
+    return b->firstAddress().matchIPAddr(a->firstAddress()) <= 0 &&
+           a->lastAddress().matchIPAddr(b->lastAddress()) <= 0;
 }
 
 template <>
 Acl::SplayInserter<acl_ip_data*>::Value
 Acl::SplayInserter<acl_ip_data*>::MakeCombinedValue(const Value &a, const Value &b)
 {
-    const auto minLeft = std::min(a->firstAddress(), b->firstAddress());
-    const auto maxRight = std::max(a->lastAddress(), b->lastAddress());
+    const auto less = [](const Ip::Address &x, const Ip::Address &y) { return x.matchIPAddr(y) < 0; };
+    const auto minLeft = std::min(a->firstAddress(), b->firstAddress(), less);
+    const auto maxRight = std::max(a->lastAddress(), b->lastAddress(), less);
     return new acl_ip_data(minLeft, maxRight, Ip::Address::NoAddr(), nullptr);
 }
 
@@ -160,7 +164,7 @@ aclIpAddrNetworkCompare(acl_ip_data * const &p, acl_ip_data * const &q)
 
     } else {                   /* range address check */
 
-        if ( (A >= q->addr1) && (A <= q->addr2) )
+        if (A.matchIPAddr(q->addr1) >= 0 && A.matchIPAddr(q->addr2) <= 0)
             return 0; /* valid. inside range. */
         else
             return A.matchIPAddr( q->addr1 ); /* outside of range, 'less than' */
